@@ -518,6 +518,7 @@ class SurfaceContainer(AbstractContainer):
     @delta_u.setter
     def delta_u(self, value):
         self._delta_setter_common(0, value)
+        self.reset()
 
     @property
     def delta_v(self):
@@ -541,6 +542,7 @@ class SurfaceContainer(AbstractContainer):
     @delta_v.setter
     def delta_v(self, value):
         self._delta_setter_common(1, value)
+        self.reset()
 
     @property
     def sample_size_u(self):
@@ -560,6 +562,7 @@ class SurfaceContainer(AbstractContainer):
     @sample_size_u.setter
     def sample_size_u(self, value):
         self._sample_size_setter_common(0, value)
+        self.reset()
 
     @property
     def sample_size_v(self):
@@ -579,6 +582,7 @@ class SurfaceContainer(AbstractContainer):
     @sample_size_v.setter
     def sample_size_v(self, value):
         self._sample_size_setter_common(1, value)
+        self.reset()
 
     @property
     def tessellator(self):
@@ -888,6 +892,7 @@ class VolumeContainer(AbstractContainer):
     @delta_u.setter
     def delta_u(self, value):
         self._delta_setter_common(0, value)
+        self.reset()
 
     @property
     def delta_v(self):
@@ -911,6 +916,7 @@ class VolumeContainer(AbstractContainer):
     @delta_v.setter
     def delta_v(self, value):
         self._delta_setter_common(1, value)
+        self.reset()
 
     @property
     def delta_w(self):
@@ -934,6 +940,7 @@ class VolumeContainer(AbstractContainer):
     @delta_w.setter
     def delta_w(self, value):
         self._delta_setter_common(2, value)
+        self.reset()
 
     @property
     def sample_size_u(self):
@@ -953,6 +960,7 @@ class VolumeContainer(AbstractContainer):
     @sample_size_u.setter
     def sample_size_u(self, value):
         self._sample_size_setter_common(0, value)
+        self.reset()
 
     @property
     def sample_size_v(self):
@@ -972,6 +980,7 @@ class VolumeContainer(AbstractContainer):
     @sample_size_v.setter
     def sample_size_v(self, value):
         self._sample_size_setter_common(1, value)
+        self.reset()
 
     @property
     def sample_size_w(self):
@@ -991,6 +1000,7 @@ class VolumeContainer(AbstractContainer):
     @sample_size_w.setter
     def sample_size_w(self, value):
         self._sample_size_setter_common(2, value)
+        self.reset()
 
     def render(self, **kwargs):
         """ Renders the volumes.
